@@ -6,6 +6,7 @@ CONSTANTS
   Limit = 255
   DigMode = "spread"
   Persist = FALSE
+  PersistEvery = 1
   AllowPop = TRUE
   GrowUntil = 0
   ShrinkFrom = 1000000
